@@ -446,13 +446,17 @@ class SensorRef:
                 val = ref[2].T @ (pk["v"] - rk["v"] - np.cross(rk["w"], r))
                 sc = (pk["sv"] + rk["sv"] + rbd._acr(np.abs(rk["w"]), np.abs(r)) + rk["sw"] * np.abs(r).max()).max()
                 return _vt(val, sc)
-            # accelerations: global coordinates; linear acceleration follows the accelerometer convention (includes gravity as
-            # the world acceleration -g, see ASSUMPTIONS of the check)
+            # accelerations: global coordinates; on bodies with dofs the linear acceleration follows the accelerometer convention
+            # (includes gravity as the world acceleration -g, see ASSUMPTIONS of the check). The documentation of framelinacc
+            # ("3D linear acceleration of the spatial frame of the object, in global coordinates") does not mention gravity, so on
+            # a frame attached to a dof-less (static / mocap) body both the literal kinematic value 0 and the accelerometer-
+            # convention value -g are documented readings: both are accepted (audit B1; the check counts which one is seen).
             if k == "FRAMEANGACC":
                 return _vt(pk["aa"], pk["saa"].max())
             r = _vt(pk["al"] - ctx["gravity"], (pk["sal"] + np.abs(ctx["gravity"])).max())
             if not T.chain[b]:
-                r.tags.add("static-body")
+                r.tags.add("static-frame-linacc")
+                r.alts.append(_vt(pk["al"], pk["sal"].max()))
             return r
 
         # ---- site-mounted inertial sensors
